@@ -1,5 +1,6 @@
 import Mathlib.Tactic.NormNum
 import Mathlib.Tactic.Linarith
+import Mathlib.Tactic.Positivity
 import ElexModel.Core.Boot
 import ElexModel.Core.BootAgg
 import ElexModel.Lemmas.Quantile
@@ -290,5 +291,75 @@ theorem source_straddle_strict (pred lo hi : ℚ) :
   constructor
   · exact lt_of_le_of_lt (min_le_right _ _) (by norm_num)
   · exact lt_of_lt_of_le (by norm_num) (le_max_right _ _)
+
+/-! ### the clip bounds of a nonreporting unit (`_generate_nonreporting_bounds`, regenerated from source)
+
+`clip_product_bounded` and `margin_bounded` above assume that every clipped normalised margin lies in `[-1, 1]` and every clipped turnout
+factor is non-negative.  The bounds the clip uses are functions of the unit's expected-vote percentage and its partial observation; the
+two theorems below discharge that assumption for the formulas as they stand in the source: the margin bounds stay between the naive
+bounds and bracket the observation (this needs the expected-vote fraction clipped at 1, which the source does with `.clip(max=100)`),
+the turnout-factor bounds are non-negative and ordered. -/
+
+/-- the expected-vote fraction used by the clip bounds: clipped at 100 percent -/
+theorem frac_le_one (pev : ℚ) : rmin pev 100 / 100 ≤ 1 := by
+  unfold rmin
+  split
+  · rw [div_le_one (by norm_num)]; assumption
+  · norm_num
+
+theorem source_y_bounds (pev obs lb ub : ℚ) (h1 : lb ≤ obs) (h2 : obs ≤ ub) :
+    lb ≤ Gen.C06.y_lower_bound pev obs lb ub ∧ Gen.C06.y_lower_bound pev obs lb ub ≤ obs ∧
+    obs ≤ Gen.C06.y_upper_bound pev obs lb ub ∧ Gen.C06.y_upper_bound pev obs lb ub ≤ ub := by
+  have hf := frac_le_one pev
+  unfold Gen.C06.y_lower_bound Gen.C06.y_upper_bound
+  by_cases hn : (decide (rmin pev 100 / 100 < 1 / 2) || decide (rmin pev 100 / 100 = 1)) = true
+  · simp only [hn, if_true]
+    exact ⟨le_rfl, h1, h2, le_rfl⟩
+  · simp only [hn]
+    have hhalf : (1:ℚ)/2 ≤ rmin pev 100 / 100 := by
+      simp only [Bool.or_eq_true, decide_eq_true_eq, not_or, not_lt] at hn
+      exact hn.1
+    set f := rmin pev 100 / 100 with hfdef
+    have hf0 : 0 ≤ f := by linarith
+    have hg : 0 ≤ 1 - f := by linarith
+    refine ⟨?_, ?_, ?_, ?_⟩ <;> simp only [Bool.false_eq_true, if_false] <;> nlinarith [mul_nonneg hf0 (sub_nonneg.mpr h1), mul_nonneg hf0 (sub_nonneg.mpr h2), mul_nonneg hg (sub_nonneg.mpr h1), mul_nonneg hg (sub_nonneg.mpr h2)]
+
+/-- the turnout-factor clip bounds: non-negative and ordered for a non-negative observation, a non-negative provider error bound and
+    naive bounds `0 ≤ lb ≤ ub` -/
+theorem source_z_bounds (pev obs eb lb ub : ℚ) (ho : 0 ≤ obs) (he : 0 ≤ eb) (hl : 0 ≤ lb) (hlu : lb ≤ ub) :
+    0 ≤ Gen.C06.z_lower_bound pev obs eb lb ub ∧
+    Gen.C06.z_lower_bound pev obs eb lb ub ≤ Gen.C06.z_upper_bound pev obs eb lb ub := by
+  unfold Gen.C06.z_lower_bound Gen.C06.z_upper_bound
+  by_cases hn : (decide (rmin pev 100 / 100 < 1 / 2) || decide (rmin pev 100 / 100 = 1)) = true
+  · simp only [hn, if_true]
+    exact ⟨hl, hlu⟩
+  · simp only [hn, Bool.false_eq_true, if_false]
+    have hhalf : (1:ℚ)/2 ≤ rmin pev 100 / 100 := by
+      simp only [Bool.or_eq_true, decide_eq_true_eq, not_or, not_lt] at hn
+      exact hn.1
+    set f := rmin pev 100 / 100 with hfdef
+    have hden : 0 < f + eb := by linarith
+    have hlow : 0 ≤ obs / (f + eb) := div_nonneg ho hden.le
+    have hm : 0 < rmax (f - eb) (1 / 100) := by
+      unfold rmax; split <;> [norm_num; (rename_i h; linarith [not_le.mp h])]
+    have hmle : rmax (f - eb) (1 / 100) ≤ f + eb := by
+      unfold rmax; split <;> linarith
+    refine ⟨hlow, ?_⟩
+    by_cases hz : obs / rmax (f - eb) (1 / 100) = 0
+    · simp only [hz, decide_true, if_true]
+      have : obs = 0 := by
+        rcases div_eq_zero_iff.mp hz with h | h
+        · exact h
+        · exact absurd h hm.ne'
+      rw [this, zero_div]
+      linarith
+    · simp only [hz, decide_false, Bool.false_eq_true, if_false]
+      exact div_le_div_of_nonneg_left ho hm hmle
+
+
+example : Gen.C06.y_lower_bound 106 (-98/100) (-1) 1 = -1 ∧ Gen.C06.y_upper_bound 106 (-98/100) (-1) 1 = 1 ∧
+    Gen.C06.y_lower_bound 80 (1/2) (-1) 1 = 1/5 ∧ Gen.C06.y_upper_bound 80 (1/2) (-1) 1 = 3/5 ∧
+    Gen.C06.z_lower_bound 80 (9/10) (1/10) (1/2) (3/2) = 1 ∧ Gen.C06.z_upper_bound 80 (9/10) (1/10) (1/2) (3/2) = 9/7 := by
+  decide +kernel
 
 end ElexModel.Boot
